@@ -3,7 +3,7 @@
 EXTENDS EBB3Link
 C(m, a, s) == [m |-> m, a |-> a, s |-> s]
 Ram0 == [i \in 0..31 |-> 0]
-Board0 == [ram |-> Ram0, nick |-> "Lab", m1 |-> FALSE, m2 |-> FALSE, res |-> 1, volt |-> 300]
+Board0 == [ram |-> Ram0, nick |-> "Lab", m1 |-> FALSE, m2 |-> FALSE, res |-> 1, volt |-> 300, p1 |-> 0, p2 |-> 0]
 BoardsOne == {Board0}
 BoardsMotor == {[Board0 EXCEPT !.m1 = a, !.m2 = b, !.res = r] : a \in BOOLEAN, b \in BOOLEAN, r \in 1..5}
 \* one representative call per public request method (C04 / C05): every primitive kind and every program shape
@@ -15,7 +15,7 @@ AllMethods ==
     C("var_write", <<7, 3>>, ""), C("var_read", <<3>>, ""), C("var_write_int32", <<-2, 4>>, ""), C("var_read_int32", <<4>>, ""),
     C("timed_pause", <<1600>>, ""), C("xy_move", <<10, -20, 30>>, ""), C("abs_move", <<1000, 0, 5>>, ""),
     C("motors_disable", <<>>, ""), C("motors_enable", <<1, 1>>, ""), C("motors_enable", <<0, 2>>, ""), C("motors_query_enabled", <<>>, ""),
-    C("query_steps", <<>>, ""), C("clear_steps", <<>>, ""), C("clear_accumulators", <<>>, ""),
+    C("query_steps", <<>>, ""), C("clear_steps", <<>>, ""), C("xy_move", <<-7, 3, 20>>, ""), C("clear_accumulators", <<>>, ""),
     C("pen_lower", <<100, NoneI>>, ""), C("pen_raise", <<100, 0>>, ""),
     C("dio_b_config", <<3, 1, 0>>, ""), C("pb_set", <<3, 0>>, ""), C("dio_b_read", <<3>>, ""),
     C("pen_pos_down", <<16000>>, ""), C("pen_pos_up", <<20000>>, ""), C("pen_rate_down", <<400>>, ""), C("pen_rate_up", <<400>>, ""),
@@ -25,7 +25,7 @@ AllMethods ==
 CoreMethods ==
   { C("command", <<>>, "SM,100,0,0"), C("query", <<>>, "QX"), C("query_statusbyte", <<>>, ""), C("reboot", <<>>, ""), C("bootload", <<>>, ""),
     C("write_nickname", <<>>, "Axi"), C("var_write_int32", <<-2, 4>>, ""), C("var_read_int32", <<4>>, ""), C("dio_b_config", <<3, 1, 0>>, ""),
-    C("motors_enable", <<0, 2>>, ""), C("query_voltage", <<NoneI>>, ""), C("query_current", <<>>, ""), C("timed_pause", <<800>>, ""),
+    C("motors_enable", <<0, 2>>, ""), C("query_voltage", <<NoneI>>, ""), C("query_current", <<>>, ""), C("timed_pause", <<800>>, ""), C("xy_move", <<10, -20, 30>>, ""), C("query_steps", <<>>, ""),
     C("record_error", <<>>, ""), C("connect", <<>>, ""), C("disconnect", <<>>, "") }
 ConnectMethods ==
   { C("connect", <<>>, ""), C("disconnect", <<>>, ""), C("command", <<>>, "SM,100,0,0"), C("query", <<>>, "QX"), C("bootload", <<>>, ""), C("reboot", <<>>, ""),
